@@ -2161,6 +2161,20 @@ fn extract_group_value(arr: &ArrayRef, row: usize) -> GroupValue {
     GroupValue::Null
 }
 
+/// Value of a dictionary-encoded string column (small-build join gathers emit
+/// `Dictionary(Int32, Utf8)`); `None` for a NULL key or another dictionary type.
+fn dict_str_value(input: &ArrayRef, row: usize) -> Option<&str> {
+    let a = input
+        .as_any()
+        .downcast_ref::<arrow::array::DictionaryArray<arrow::datatypes::Int32Type>>()?;
+    let values = a.values().as_any().downcast_ref::<arrow::array::StringArray>()?;
+    let key = a.key(row)?;
+    if values.is_null(key) {
+        return None;
+    }
+    Some(values.value(key))
+}
+
 fn update_accumulator(
     state: &mut AccumulatorState,
     func: AggregateFunction,
@@ -2246,6 +2260,11 @@ fn update_accumulator(
                 } else if let Some(a) = input.as_any().downcast_ref::<Date32Array>() {
                     let val = a.value(row) as i64;
                     state.min_i64 = Some(state.min_i64.map_or(val, |m| m.min(val)));
+                } else if let Some(v) = dict_str_value(input, row) {
+                    // MIN over a dictionary-encoded string column was silently NULL
+                    if state.min_str.as_deref().map_or(true, |m| v < m) {
+                        state.min_str = Some(v.to_string());
+                    }
                 }
             }
         }
@@ -2269,6 +2288,10 @@ fn update_accumulator(
                 } else if let Some(a) = input.as_any().downcast_ref::<Date32Array>() {
                     let val = a.value(row) as i64;
                     state.max_i64 = Some(state.max_i64.map_or(val, |m| m.max(val)));
+                } else if let Some(v) = dict_str_value(input, row) {
+                    if state.max_str.as_deref().map_or(true, |m| v > m) {
+                        state.max_str = Some(v.to_string());
+                    }
                 }
             }
         }
